@@ -20,7 +20,7 @@ PROPS = {
     "C14": [r12.rule_term_set_numbers, r25.rule_R25, r25.rule_R25_cxx, r25.rule_R25_use, r25.rule_R25_use_cxx, r4.rule_R4e, r3.rule_R3e, r1.rule_R1a, r1.rule_R1b, r12.rule_R1c, r12.rule_R12, r2e.rule_R2e, r5.rule_undefined_typestate],
     "C15": [r5.rule_defaults, r5.rule_setters, r5.rule_parse_entry, r5.rule_token_intake, r5.rule_undefined_typestate, r3.rule_R3d, r1.rule_R1a, r4.rule_R4c, r4.rule_R4d, r4.rule_R4a, r4.rule_R4f],
     "C16": [r8.rule_R8, r8.rule_R8_probes, r8.rule_forwarding, r8.rule_R2f, r17.rule_R17, r17.rule_R17_cxx, r26.rule_R26, r19.rule_R19, r19.rule_R19_cxx, r18.rule_R18, r18.rule_R18_cxx, r19.rule_R23, r19.rule_R23_cxx, r24.rule_R24_room, r24.rule_R24_room_cxx, r24.rule_R24_clear, r24.rule_R24_clear_cxx, r24.rule_R24_tomb, r24.rule_R24_tomb_cxx, r24.rule_R24_sole, r24.rule_R24_sole_cxx, r28.rule_R28, r28.rule_R28_cxx, r25.rule_R25, r25.rule_R25_cxx, r25.rule_R25_use, r25.rule_R25_use_cxx],
-    "C18": [r27.rule_consing, r27.rule_consing_cxx, r27.rule_hash_covers_key, r27.rule_goto_cache, r27.rule_growth, r27.rule_growth_cxx, r28.rule_R28, r28.rule_R28_cxx, r15.rule_R15, r20.rule_R20, r26.rule_R26],
+    "C18": [r27.rule_consing, r27.rule_consing_cxx, r27.rule_hash_covers_key, r27.rule_goto_cache, r27.rule_growth, r27.rule_growth_cxx, r27.rule_growth_storage, r27.rule_growth_storage_cxx, r28.rule_R28, r28.rule_R28_cxx, r15.rule_R15, r20.rule_R20, r26.rule_R26],
     "C19": [r8.rule_R8, r8.rule_R8_probes, r8.rule_R2f, r4.rule_R4d, r19.rule_R19, r19.rule_R19_cxx, r18.rule_R18, r18.rule_R18_cxx, r19.rule_R23, r19.rule_R23_cxx, r24.rule_R24_room, r24.rule_R24_room_cxx, r24.rule_R24_clear, r24.rule_R24_clear_cxx, r24.rule_R24_tomb, r24.rule_R24_tomb_cxx, r24.rule_R24_sole, r24.rule_R24_sole_cxx, r28.rule_R28, r28.rule_R28_cxx],
     "C17": [r3.rule_R3a, r3.rule_R3b, r3.rule_R3c, r3.rule_R3d, r3.rule_R3e, r3.rule_allocator_discipline, r1.rule_R1a, r1.rule_R1b, r12.rule_R1c, r12.rule_term_set_numbers, r17.rule_R17, r17.rule_R17_cxx, r19.rule_R23, r19.rule_R23_cxx],
 }
